@@ -1,2 +1,1117 @@
-// Package c14 binds the TLA+ specification of property C14 to the Go code.
+// Package c14 binds spec/encodings (DurationText.tla, HostPort.tla,
+// PrefixText.tla, UrlModel.tla) to timeutil.Duration, netutil.HostPort,
+// netutil.Prefix and urlutil.URL.
+//
+// Verdicts: a mismatch is only ever a violation of the statement of C14 by
+// the real code (a lost value, a text that is not the reference text, a
+// disagreement with netip).  Where the TLA+ model predicts something the
+// statement does not demand (the exact text of HostPort.String, the JSON
+// bytes, what url.Parse accepts) a disagreement is counted as a model
+// difference; model differences without any mismatch abort the run as a
+// checker error, they are never reported as violations.
 package c14
+
+import (
+	"bytes"
+	"encoding/json"
+	"fmt"
+	"math"
+	"net/netip"
+	"os"
+	"regexp"
+	"strconv"
+	"strings"
+	"time"
+	"unicode/utf8"
+
+	"github.com/AdguardTeam/golibs/netutil"
+	"github.com/AdguardTeam/golibs/netutil/urlutil"
+	"github.com/AdguardTeam/golibs/timeutil"
+
+	"verifharness/internal/vh"
+)
+
+func init() {
+	vh.Register("c14", "replay-duration", replayDuration)
+	vh.Register("c14", "record-duration", recordDuration)
+	vh.Register("c14", "replay-hostport", replayHostPort)
+	vh.Register("c14", "record-hostport", recordHostPort)
+	vh.Register("c14", "replay-prefix", replayPrefix)
+	vh.Register("c14", "replay-url", replayURL)
+	vh.Register("c14", "record-url", recordURL)
+}
+
+// modelDiffs collects disagreements between the TLA+ model and things the
+// statement does not constrain.
+type modelDiffs struct {
+	n     int
+	first []string
+}
+
+func (m *modelDiffs) add(format string, a ...any) {
+	m.n++
+	if os.Getenv("VERIF_DEBUG") != "" {
+		fmt.Fprintf(os.Stderr, "model-diff: "+format+"\n", a...)
+	}
+	if len(m.first) < 5 {
+		m.first = append(m.first, fmt.Sprintf(format, a...))
+	}
+}
+
+// finish turns model differences into a checker error unless real mismatches
+// explain them.
+func (m *modelDiffs) finish(res *vh.Result) error {
+	if m.n > 0 && res.Mismatches() == 0 {
+		return fmt.Errorf("the TLA+ model disagrees with the code on %d points the statement does not constrain (spec bug?): %s",
+			m.n, strings.Join(m.first, " | "))
+	}
+	return nil
+}
+
+// ------------------------------------------------------------ durations
+
+type durRec struct {
+	Neg bool  `json:"neg"`
+	H   int64 `json:"h"`
+	M   int64 `json:"m"`
+	S   int64 `json:"s"`
+	NS  int64 `json:"ns"`
+}
+
+func (d durRec) value() (time.Duration, error) {
+	if d.H < 0 || d.H > 2562047 || d.M < 0 || d.M > 59 || d.S < 0 || d.S > 59 || d.NS < 0 || d.NS > 999999999 {
+		return 0, fmt.Errorf("duration record out of range: %+v", d)
+	}
+	mag := ((uint64(d.H)*60+uint64(d.M))*60+uint64(d.S))*1e9 + uint64(d.NS)
+	if mag > 1<<63 || (!d.Neg && mag == 1<<63) {
+		return 0, fmt.Errorf("duration record does not fit int64: %+v", d)
+	}
+	if d.Neg {
+		return time.Duration(int64(0 - mag)), nil
+	}
+	return time.Duration(int64(mag)), nil
+}
+
+func recOf(v time.Duration) durRec {
+	neg := v < 0
+	mag := uint64(v)
+	if neg {
+		mag = 0 - mag
+	}
+	return durRec{Neg: neg, H: int64(mag / 3600e9), M: int64(mag / 60e9 % 60), S: int64(mag / 1e9 % 60), NS: int64(mag % 1e9)}
+}
+
+// chars splits a text into the one-character tokens of DurationText.tla.
+func durChars(s string) []string {
+	out := make([]string, 0, len(s))
+	for _, r := range s {
+		if r == '\u00B5' {
+			out = append(out, "u")
+		} else {
+			out = append(out, string(r))
+		}
+	}
+	return out
+}
+
+func durJoin(toks []string) string {
+	var b strings.Builder
+	for _, t := range toks {
+		if t == "u" {
+			b.WriteString("\u00B5")
+		} else {
+			b.WriteString(t)
+		}
+	}
+	return b.String()
+}
+
+var stdDurRE = regexp.MustCompile(`^(-?)(\d+h)?(\d+m)?(\d+(?:\.\d+)?s)$`)
+
+// cutRef is the statement, literally: time.Duration's text with redundant
+// trailing zero minute/second units removed.  Texts below one second have a
+// single unit and nothing to remove.
+func cutRef(std string) string {
+	g := stdDurRE.FindStringSubmatch(std)
+	if g == nil {
+		return std // "0s" matches; ns/\u00B5s/ms texts do not
+	}
+	sign, h, m, s := g[1], g[2], g[3], g[4]
+	if s == "0s" && (h != "" || m != "") {
+		s = ""
+		if m == "0m" && h != "" {
+			m = ""
+		}
+	}
+	return sign + h + m + s
+}
+
+// judgeDuration checks one value.  specStd/specStr are the model's texts
+// ("" when none accompany the value).
+func judgeDuration(res *vh.Result, v time.Duration, specStd, specStr string) (specBug error) {
+	std := v.String()
+	want := cutRef(std)
+	if specStd != "" && specStd != std {
+		return fmt.Errorf("DurationText.tla StdStr gives %q, time.Duration(%d).String() is %q", specStd, int64(v), std)
+	}
+	if specStr != "" && specStr != want {
+		return fmt.Errorf("DurationText.tla Str gives %q, the statement's reference gives %q for %d", specStr, want, int64(v))
+	}
+	d := timeutil.Duration(v)
+	key := fmt.Sprintf("timeutil.Duration(%d)", int64(v))
+	var got string
+	var text []byte
+	var merr, uerr, uerr2 error
+	var back, back2 timeutil.Duration
+	pv, panicked := vh.Try(func() {
+		got = d.String()
+		text, merr = d.MarshalText()
+		if merr == nil {
+			uerr = back.UnmarshalText(text)
+		}
+		uerr2 = back2.UnmarshalText([]byte(got))
+	})
+	switch {
+	case panicked:
+		res.Mismatch(key, fmt.Sprintf("panic: %v", pv), nil)
+	case got != want:
+		res.Mismatch(key+".String()", fmt.Sprintf("String() = %q, want %q (time.Duration prints %q)", got, want, std),
+			map[string]any{"value": int64(v), "got": got, "want": want, "std": std})
+	case merr != nil:
+		res.Mismatch(key+".MarshalText()", "MarshalText failed: "+merr.Error(), nil)
+	case uerr != nil:
+		res.Mismatch(key+" text round trip", fmt.Sprintf("UnmarshalText(%q) failed: %v", text, uerr), nil)
+	case back != d:
+		res.Mismatch(key+" text round trip", fmt.Sprintf("UnmarshalText(MarshalText(d)) = %d via %q", int64(back), text),
+			map[string]any{"value": int64(v), "text": string(text), "back": int64(back)})
+	case uerr2 != nil || back2 != d:
+		res.Mismatch(key+" String round trip", fmt.Sprintf("UnmarshalText(String()) = %d, %v via %q", int64(back2), uerr2, got), nil)
+	}
+	return nil
+}
+
+func replayDuration(args []string) error {
+	if len(args) != 2 {
+		return fmt.Errorf("usage: replay-duration <vectors> <result>")
+	}
+	res, err := vh.NewResult(args[1])
+	if err != nil {
+		return err
+	}
+	type vec struct {
+		D   durRec   `json:"d"`
+		Std []string `json:"std"`
+		Str []string `json:"str"`
+	}
+	n, cut := 0, 0
+	dd := vh.NewDedup()
+	err = vh.ForEachVector(args[0], func(_ int, raw []byte) error {
+		var v vec
+		if err := json.Unmarshal(raw, &v); err != nil {
+			return err
+		}
+		val, err := v.D.value()
+		if err != nil {
+			return err
+		}
+		n++
+		dd.Add(raw)
+		std, str := durJoin(v.Std), durJoin(v.Str)
+		if std != str {
+			cut++
+		}
+		if n%2503 == 17 {
+			res.Sample(map[string]any{"ns": int64(val), "std": std, "spec": str})
+		}
+		return judgeDuration(res, val, std, str)
+	})
+	if err != nil {
+		return err
+	}
+	return res.Close(map[string]any{"vectors": n, "evaluations": n, "cut_texts": cut, "distinct_nontrivial": dd.N()})
+}
+
+// randDuration is biased towards unit boundaries.
+func randDuration(rng interface {
+	IntN(int) int
+	Int64() int64
+	Uint64() uint64
+	Int64N(int64) int64
+}) time.Duration {
+	units := []int64{1, 1e3, 1e6, 1e9, 60e9, 3600e9}
+	var v int64
+	switch rng.IntN(8) {
+	case 0:
+		v = int64(rng.Uint64())
+	case 1:
+		v = rng.Int64N(1e10)
+	case 2, 3, 4: // k units +- a little
+		u := units[rng.IntN(len(units))]
+		k := rng.Int64N(math.MaxInt64/u) + 0
+		if rng.IntN(2) == 0 {
+			k = rng.Int64N(200)
+		}
+		v = k*u + []int64{0, 0, 0, 1, -1, 999, 1000, 500000000}[rng.IntN(8)]
+	case 5: // h, m, s each possibly zero, whole seconds
+		v = rng.Int64N(3)*rng.Int64N(30)*3600e9 + rng.Int64N(3)%2*rng.Int64N(60)*60e9 + rng.Int64N(3)%2*rng.Int64N(60)*1e9
+	case 6: // whole minutes / hours with a tiny or huge fraction
+		v = rng.Int64N(100000)*60e9 + []int64{0, 1, 1e9 - 1, 1e6, 1e3}[rng.IntN(5)]
+	default:
+		v = []int64{0, 1, -1, math.MaxInt64, math.MinInt64, math.MinInt64 + 1, math.MaxInt64 - 1, 1e9, 60e9, 3600e9, 86400e9}[rng.IntN(11)]
+	}
+	if rng.IntN(3) == 0 && v != math.MinInt64 {
+		v = -v
+	}
+	return time.Duration(v)
+}
+
+func recordDuration(args []string) error {
+	if len(args) != 5 {
+		return fmt.Errorf("usage: record-duration <trace-prefix> <result> <traced> <chunk> <swept>")
+	}
+	var nTrace, chunk, nSweep int
+	fmt.Sscan(args[2], &nTrace)
+	fmt.Sscan(args[3], &chunk)
+	fmt.Sscan(args[4], &nSweep)
+	res, err := vh.NewResult(args[1])
+	if err != nil {
+		return err
+	}
+	rng := vh.Rand(141)
+	type ev struct {
+		durRec
+		Text   []string `json:"text"`
+		Std    []string `json:"std"`
+		BackOK bool     `json:"backok"`
+		Back   durRec   `json:"back"`
+	}
+	var tr *vh.Trace
+	files, events := 0, 0
+	dd := vh.NewDedup()
+	total := max(nTrace, nSweep)
+	for i := 0; i < total; i++ {
+		v := randDuration(rng)
+		if err := judgeDuration(res, v, "", ""); err != nil {
+			return err
+		}
+		var b8 [8]byte
+		for k := range b8 {
+			b8[k] = byte(uint64(v) >> (8 * k))
+		}
+		dd.Add(b8[:])
+		if i >= nTrace {
+			continue
+		}
+		if tr == nil {
+			tr, err = vh.NewTrace(fmt.Sprintf("%s.%d.ndjson", args[0], files))
+			if err != nil {
+				return err
+			}
+			files++
+		}
+		e := ev{durRec: recOf(v), Std: durChars(v.String())}
+		if _, panicked := vh.Try(func() {
+			d := timeutil.Duration(v)
+			e.Text = durChars(d.String())
+			var back timeutil.Duration
+			text, merr := d.MarshalText()
+			e.BackOK = merr == nil && back.UnmarshalText(text) == nil
+			e.Back = recOf(time.Duration(back))
+		}); panicked {
+			continue // reported by judgeDuration
+		}
+		tr.Emit(e)
+		events++
+		if i%99991 == 3 {
+			res.Sample(map[string]any{"ns": int64(v), "String": durJoin(e.Text)})
+		}
+		if tr.N >= chunk {
+			if err := tr.Close(); err != nil {
+				return err
+			}
+			tr = nil
+		}
+	}
+	if tr != nil {
+		if err := tr.Close(); err != nil {
+			return err
+		}
+	}
+	return res.Close(map[string]any{"events": events, "files": files, "evaluations": total, "distinct_nontrivial": dd.N()})
+}
+
+// ------------------------------------------------------------ host:port
+
+// hpToken abstracts one rune of a host / host:port text.
+func asciiToken(r rune) string {
+	switch {
+	case r == '"':
+		return "DQ"
+	case r == '\\':
+		return "BS"
+	case r == ' ':
+		return "SPC"
+	case r > 0x20 && r < 0x7f:
+		return string(r)
+	default:
+		return fmt.Sprintf("U+%04X", r)
+	}
+}
+
+func tokensOf(s string) []string {
+	out := []string{}
+	for _, r := range s {
+		out = append(out, asciiToken(r))
+	}
+	return out
+}
+
+func judgeHostPort(res *vh.Result, hp netutil.HostPort) (text string, ok bool) {
+	key := fmt.Sprintf("HostPort{%+q, %d}", hp.Host, hp.Port)
+	var back *netutil.HostPort
+	var perr, merr, uerr error
+	var viaText netutil.HostPort
+	var mt []byte
+	pv, panicked := vh.Try(func() {
+		text = hp.String()
+		back, perr = netutil.ParseHostPort(text)
+		mt, merr = hp.MarshalText()
+		if merr == nil {
+			uerr = viaText.UnmarshalText(mt)
+		}
+	})
+	switch {
+	case panicked:
+		res.Mismatch(key, fmt.Sprintf("panic: %v", pv), nil)
+	case perr != nil:
+		res.Mismatch(key, fmt.Sprintf("ParseHostPort(hp.String()) fails on %+q: %v", text, perr), map[string]any{"host": hp.Host, "port": hp.Port, "text": text})
+	case back == nil || *back != hp:
+		res.Mismatch(key, fmt.Sprintf("ParseHostPort(hp.String()) = %+v via %+q", back, text), map[string]any{"host": hp.Host, "port": hp.Port, "text": text})
+	case merr != nil || uerr != nil || viaText != hp:
+		res.Mismatch(key+" text round trip", fmt.Sprintf("UnmarshalText(MarshalText(hp)) = %+v, %v, %v via %+q", viaText, merr, uerr, mt), nil)
+	default:
+		return text, true
+	}
+	return text, false
+}
+
+func replayHostPort(args []string) error {
+	if len(args) != 2 {
+		return fmt.Errorf("usage: replay-hostport <vectors> <result>")
+	}
+	res, err := vh.NewResult(args[1])
+	if err != nil {
+		return err
+	}
+	type vec struct {
+		Host []string `json:"host"`
+		Port int      `json:"port"`
+		Text []string `json:"text"`
+	}
+	plain := []string{"a", "x", "\u00E9", "-", "_", "@", "/", "Z", " ", "\u4E16"}
+	digit := []string{"1", "0", "9", "5"}
+	conc := func(toks []string, p, d string) string {
+		var b strings.Builder
+		for _, t := range toks {
+			switch t {
+			case "a":
+				b.WriteString(p)
+			case "1":
+				b.WriteString(d)
+			default:
+				b.WriteString(t)
+			}
+		}
+		return b.String()
+	}
+	seed := int(vh.Seed() % 100003)
+	var md modelDiffs
+	n, evals := 0, 0
+	dd := vh.NewDedup()
+	err = vh.ForEachVector(args[0], func(_ int, raw []byte) error {
+		var v vec
+		if err := json.Unmarshal(raw, &v); err != nil {
+			return err
+		}
+		if v.Port < 0 || v.Port > 65535 {
+			return fmt.Errorf("port %d out of range", v.Port)
+		}
+		n++
+		if len(v.Host) > 0 {
+			dd.Add(raw)
+		}
+		for c := 0; c < 2; c++ {
+			p, d := plain[0], digit[0]
+			if c == 1 {
+				p, d = plain[(seed+n)%len(plain)], digit[(seed+n/3)%len(digit)]
+			}
+			host := conc(v.Host, p, d)
+			if strings.ContainsAny(host, "[]") {
+				continue // outside the statement
+			}
+			// The port digits of the predicted text are real digits, not the class "1".
+			var want strings.Builder
+			colon := -1
+			for i, t := range v.Text {
+				if t == ":" {
+					colon = i
+				}
+			}
+			want.WriteString(conc(v.Text[:colon+1], p, d))
+			want.WriteString(strings.Join(v.Text[colon+1:], ""))
+			evals++
+			text, ok := judgeHostPort(res, netutil.HostPort{Host: host, Port: uint16(v.Port)})
+			if ok && text != want.String() {
+				md.add("HostPort{%q,%d}.String() = %q, HostPort.tla Join predicts %q", host, v.Port, text, want.String())
+			}
+			if n%4001 == 9 && c == 0 {
+				res.Sample(map[string]any{"host": host, "port": v.Port, "text": text})
+			}
+		}
+		return nil
+	})
+	if err != nil {
+		return err
+	}
+	if err := md.finish(res); err != nil {
+		return err
+	}
+	return res.Close(map[string]any{"vectors": n, "evaluations": evals, "distinct_nontrivial": dd.N(), "model_diffs": md.n})
+}
+
+func recordHostPort(args []string) error {
+	if len(args) != 3 {
+		return fmt.Errorf("usage: record-hostport <trace> <result> <n>")
+	}
+	var n int
+	fmt.Sscan(args[2], &n)
+	tr, err := vh.NewTrace(args[0])
+	if err != nil {
+		return err
+	}
+	res, err := vh.NewResult(args[1])
+	if err != nil {
+		return err
+	}
+	rng := vh.Rand(142)
+	fixed := []string{"", "example.com", "1.2.3.4", "::1", "::", "fe80::1%eth0", "2001:db8::1", "localhost", "a:b", "%", ":", "::ffff:1.2.3.4",
+		"host name", "xn--e1afmkfd.xn--p1ai", "\u043F\u0440\u0438\u043C\u0435\u0440.\u0440\u0444", "a%25b", "0", "65535", ":80", "1:2:3:4:5:6:7:8", "h:80"}
+	pool := []rune("abcxyzABC0123456789.-_:%:% /@?#=+~*!,;\u00E9\u4E16\u00A0")
+	type back struct {
+		OK   bool     `json:"ok"`
+		Host []string `json:"host"`
+		Port int      `json:"port"`
+	}
+	type ev struct {
+		Host []string `json:"host"`
+		Port int      `json:"port"`
+		Text []string `json:"text"`
+		Back back     `json:"back"`
+	}
+	dd := vh.NewDedup()
+	for i := 0; i < n; i++ {
+		var host string
+		if rng.IntN(4) == 0 {
+			host = fixed[rng.IntN(len(fixed))]
+		} else {
+			var b strings.Builder
+			for k := rng.IntN(12); k > 0; k-- {
+				b.WriteRune(pool[rng.IntN(len(pool))])
+			}
+			host = b.String()
+		}
+		port := []int{0, 1, 53, 80, 443, 8080, 65535, rng.IntN(65536), rng.IntN(65536)}[rng.IntN(9)]
+		hp := netutil.HostPort{Host: host, Port: uint16(port)}
+		text, _ := judgeHostPort(res, hp)
+		dd.Add([]byte(fmt.Sprintf("%s\x00%d", host, port)))
+		e := ev{Host: tokensOf(host), Port: port, Text: tokensOf(text), Back: back{Host: []string{}}}
+		if _, panicked := vh.Try(func() {
+			b, err := netutil.ParseHostPort(text)
+			if err == nil && b != nil {
+				e.Back = back{OK: true, Host: tokensOf(b.Host), Port: int(b.Port)}
+			}
+		}); panicked {
+			continue
+		}
+		tr.Emit(e)
+		if i%7919 == 3 {
+			res.Sample(map[string]any{"host": host, "port": port, "text": text})
+		}
+	}
+	if err := tr.Close(); err != nil {
+		return err
+	}
+	return res.Close(map[string]any{"events": tr.N, "evaluations": n, "distinct_nontrivial": dd.N()})
+}
+
+// ------------------------------------------------------------ prefixes
+
+var addrReps = map[string][]string{
+	"v4":      {"1.2.3.4", "0.0.0.0", "255.255.255.255", "10.0.0.1"},
+	"v6":      {"::", "::1", "2001:db8::1", "fe80::", "1:2:3:4:5:6:7:8", "64:ff9b::1.2.3.4"},
+	"zoned":   {"fe80::1%eth0", "::1%1", "fe80::%25", "::ffff:1.2.3.4%z"},
+	"v4in6":   {"::ffff:1.2.3.4", "::ffff:192.168.0.1", "::FFFF:10.0.0.1"},
+	"v4lz":    {"1.2.3.04", "01.2.3.4", "1.2.3.00", "001.2.3.4"},
+	"v4short": {"1.2.3", "1.2.3.4.5", "1..2.3", "256.1.1.1", "1.2.3.4.", ".1.2.3.4"},
+	"v4space": {" 1.2.3.4", "1.2.3.4 ", "1.2 .3.4", "\t::1", "::1\n"},
+	"junk":    {"abc", "1.2.3.a", ":::", "g::1", "1:2", "::1::", "example.com", "1.2.3.4%eth0", "fe80::1%", "[::1]"},
+	"empty":   {""},
+	"v4slash": {"1.2.3.4/8", "::/0", "1.2.3.4/", "/"},
+}
+
+var bitsReps = map[string][]string{
+	"0": {"0"}, "8": {"8", "1", "24", "31"}, "32": {"32"}, "33": {"33", "64", "127"}, "128": {"128"},
+	"129": {"129", "200", "999"}, "empty": {""}, "lz": {"08", "00", "032", "0128"}, "plus": {"+8", "+0"},
+	"minus": {"-1", "-0", "-"}, "space": {" 8", "8 ", " ", "\t8"}, "trail": {"8x", "8.0", "0x8", "\uFF18", "8%eth0"},
+	"huge": {"99999999999999999999", "4294967304", "18446744073709551624", "256"},
+}
+
+func replayPrefix(args []string) error {
+	if len(args) != 2 {
+		return fmt.Errorf("usage: replay-prefix <vectors> <result>")
+	}
+	res, err := vh.NewResult(args[1])
+	if err != nil {
+		return err
+	}
+	type vec struct {
+		T struct {
+			Addr  string `json:"addr"`
+			Slash bool   `json:"slash"`
+			Bits  string `json:"bits"`
+		} `json:"t"`
+		Exp struct {
+			OK   bool `json:"ok"`
+			Zero bool `json:"zero"`
+			Bits int  `json:"bits"`
+		} `json:"exp"`
+	}
+	var md modelDiffs
+	n, evals := 0, 0
+	dd := vh.NewDedup()
+	err = vh.ForEachVector(args[0], func(_ int, raw []byte) error {
+		var v vec
+		if err := json.Unmarshal(raw, &v); err != nil {
+			return err
+		}
+		n++
+		as, ok1 := addrReps[v.T.Addr]
+		bs, ok2 := bitsReps[v.T.Bits]
+		if !ok1 || !ok2 {
+			return fmt.Errorf("unknown class in %s", raw)
+		}
+		if !v.T.Slash {
+			bs = []string{""}
+		}
+		for _, a := range as {
+			for bi, b := range bs {
+				text := a
+				if v.T.Slash {
+					text = a + "/" + b
+				}
+				evals++
+				dd.Add([]byte(text))
+				// The model's length value is that of the first representative.
+				expBits := v.Exp.Bits
+				if v.Exp.OK && !v.Exp.Zero && v.T.Slash && bi > 0 {
+					expBits, _ = strconv.Atoi(b)
+				}
+				for _, preset := range []netip.Prefix{{}, netip.MustParsePrefix("9.9.9.9/9")} {
+					p := netutil.Prefix{Prefix: preset}
+					var uerr error
+					key := fmt.Sprintf("netutil.Prefix.UnmarshalText(%+q)", text)
+					if pv, panicked := vh.Try(func() { uerr = p.UnmarshalText([]byte(text)) }); panicked {
+						res.Mismatch(key, fmt.Sprintf("panic: %v", pv), nil)
+						continue
+					}
+					if strings.Contains(text, "/") {
+						ref, rerr := netip.ParsePrefix(text)
+						if (rerr == nil) != v.Exp.OK || (rerr == nil && ref.Bits() != expBits) {
+							return fmt.Errorf("PrefixText.tla expects ok=%v bits=%d for %+q, netip.ParsePrefix gives %v, %v", v.Exp.OK, expBits, text, ref, rerr)
+						}
+						switch {
+						case (uerr == nil) != (rerr == nil):
+							res.Mismatch(key, fmt.Sprintf("error %v, netip.ParsePrefix gives error %v", uerr, rerr), nil)
+						case rerr == nil && p.Prefix != ref:
+							res.Mismatch(key, fmt.Sprintf("decoded %v, netip.ParsePrefix gives %v", p.Prefix, ref), nil)
+						}
+						continue
+					}
+					ref, rerr := netip.ParseAddr(text)
+					if rerr == nil {
+						want := netip.PrefixFrom(ref, ref.BitLen())
+						if !v.Exp.OK || v.Exp.Zero || want.Bits() != expBits {
+							return fmt.Errorf("PrefixText.tla expects %+v for the bare address %+q, the reference gives %v", v.Exp, text, want)
+						}
+						switch {
+						case uerr != nil:
+							res.Mismatch(key, fmt.Sprintf("error %v on a bare address, want %v", uerr, want), nil)
+						case p.Prefix != want:
+							res.Mismatch(key, fmt.Sprintf("decoded %v, want the full-length single-address prefix %v", p.Prefix, want), nil)
+						}
+						continue
+					}
+					// Not an address: the statement is silent, the model describes the code.
+					if v.Exp.OK && !v.Exp.Zero {
+						return fmt.Errorf("PrefixText.tla expects a prefix for %+q, netip.ParseAddr rejects it: %v", text, rerr)
+					}
+					if (uerr == nil) != v.Exp.OK || (uerr == nil && v.Exp.Zero && p.Prefix != netip.Prefix{}) {
+						md.add("Prefix.UnmarshalText(%q) = %v, %v; the model expects %+v", text, p.Prefix, uerr, v.Exp)
+					}
+				}
+				if evals%97 == 5 {
+					res.Sample(map[string]any{"text": text, "model": v.Exp})
+				}
+			}
+		}
+		return nil
+	})
+	if err != nil {
+		return err
+	}
+	if err := md.finish(res); err != nil {
+		return err
+	}
+	return res.Close(map[string]any{"vectors": n, "evaluations": evals, "distinct_nontrivial": dd.N(), "model_diffs": md.n})
+}
+
+// ----------------------------------------------------------------- URLs
+
+var urlTokenChar = map[string]string{
+	"SPC": " ", "AMP": "&", "LT": "<", "GT": ">", "DQ": `"`, "BS": `\`, "NA": "\u00E9", "C1": "\x01", "LS": "\u2028", "PS": "\u2029",
+}
+
+func urlJoin(toks []string) (string, error) {
+	var b strings.Builder
+	for _, t := range toks {
+		if c, ok := urlTokenChar[t]; ok {
+			b.WriteString(c)
+		} else if len(t) == 1 {
+			b.WriteString(t)
+		} else {
+			return "", fmt.Errorf("unknown URL token %q", t)
+		}
+	}
+	return b.String(), nil
+}
+
+// urlTokens abstracts a URL text or JSON text into UrlModel.tla's tokens.
+func urlTokens(s string) []string {
+	out := []string{}
+	for _, r := range s {
+		switch r {
+		case '&':
+			out = append(out, "AMP")
+		case '<':
+			out = append(out, "LT")
+		case '>':
+			out = append(out, "GT")
+		case '\u2028':
+			out = append(out, "LS")
+		case '\u2029':
+			out = append(out, "PS")
+		default:
+			out = append(out, asciiToken(r))
+		}
+	}
+	return out
+}
+
+type trip struct {
+	name    string
+	encoded string // the JSON value (or text) that was produced
+	html    bool
+	isJSON  bool
+	back    string
+	err     error
+}
+
+// roundTrips sends u through every encoding path of the statement.
+func roundTrips(u *urlutil.URL) []trip {
+	var out []trip
+	add := func(name string, isJSON, html bool, f func() (enc string, back *urlutil.URL, err error)) {
+		t := trip{name: name, isJSON: isJSON, html: html}
+		pv, panicked := vh.Try(func() {
+			var b *urlutil.URL
+			t.encoded, b, t.err = f()
+			if t.err == nil && b != nil {
+				t.back = b.String()
+			} else if t.err == nil {
+				t.err = fmt.Errorf("decoded to a nil URL")
+			}
+		})
+		if panicked {
+			t.err = fmt.Errorf("panic: %v", pv)
+		}
+		out = append(out, t)
+	}
+	add("MarshalText->UnmarshalText", false, false, func() (string, *urlutil.URL, error) {
+		b, err := u.MarshalText()
+		if err != nil {
+			return "", nil, err
+		}
+		v := &urlutil.URL{}
+		return string(b), v, v.UnmarshalText(b)
+	})
+	add("json.Marshal->json.Unmarshal", true, true, func() (string, *urlutil.URL, error) {
+		b, err := json.Marshal(u)
+		if err != nil {
+			return "", nil, err
+		}
+		v := &urlutil.URL{}
+		return string(b), v, json.Unmarshal(b, v)
+	})
+	type holder struct {
+		N int          `json:"n"`
+		U *urlutil.URL `json:"u"`
+	}
+	add("json struct field *URL", true, true, func() (string, *urlutil.URL, error) {
+		b, err := json.Marshal(holder{N: 1, U: u})
+		if err != nil {
+			return "", nil, err
+		}
+		var h holder
+		err = json.Unmarshal(b, &h)
+		return strings.TrimSuffix(strings.TrimPrefix(string(b), `{"n":1,"u":`), "}"), h.U, err
+	})
+	type vholder struct {
+		U urlutil.URL `json:"u"`
+	}
+	add("json struct field URL (addressable)", true, true, func() (string, *urlutil.URL, error) {
+		b, err := json.Marshal(&vholder{U: *u})
+		if err != nil {
+			return "", nil, err
+		}
+		var h vholder
+		err = json.Unmarshal(b, &h)
+		return strings.TrimSuffix(strings.TrimPrefix(string(b), `{"u":`), "}"), &h.U, err
+	})
+	add("json slice []*URL", true, true, func() (string, *urlutil.URL, error) {
+		b, err := json.Marshal([]*urlutil.URL{u})
+		if err != nil {
+			return "", nil, err
+		}
+		var s []*urlutil.URL
+		if err = json.Unmarshal(b, &s); err != nil {
+			return "", nil, err
+		}
+		if len(s) != 1 {
+			return "", nil, fmt.Errorf("decoded %d elements", len(s))
+		}
+		return strings.TrimSuffix(strings.TrimPrefix(string(b), "["), "]"), s[0], nil
+	})
+	add("json map[string]*URL", true, true, func() (string, *urlutil.URL, error) {
+		b, err := json.Marshal(map[string]*urlutil.URL{"k": u})
+		if err != nil {
+			return "", nil, err
+		}
+		var m map[string]*urlutil.URL
+		if err = json.Unmarshal(b, &m); err != nil {
+			return "", nil, err
+		}
+		return strings.TrimSuffix(strings.TrimPrefix(string(b), `{"k":`), "}"), m["k"], nil
+	})
+	for _, html := range []bool{true, false} {
+		add(fmt.Sprintf("json.Encoder SetEscapeHTML(%v)->Decoder", html), true, html, func() (string, *urlutil.URL, error) {
+			var buf bytes.Buffer
+			enc := json.NewEncoder(&buf)
+			enc.SetEscapeHTML(html)
+			if err := enc.Encode(u); err != nil {
+				return "", nil, err
+			}
+			v := &urlutil.URL{}
+			err := json.NewDecoder(bytes.NewReader(buf.Bytes())).Decode(v)
+			return strings.TrimSuffix(buf.String(), "\n"), v, err
+		})
+	}
+	return out
+}
+
+// Two kinds of URLs that url.Parse accepts cannot survive any text round trip
+// because of how net/url prints them (see
+// findings_pending/C14-url-unparseable-string.md; open known findings).  Their
+// mismatch keys are seed-independent: one key per text that prints as "", one
+// class key per shape of the "//" path problem.  Every other failure is keyed
+// by its concrete input.  VERIF_C14_URL_EDGE=count only counts them.
+const (
+	keyEmptyStringFmt   = `urlutil.URL round trip: Parse(%+q) prints as "" which UnmarshalText/UnmarshalJSON reject`
+	keySlashSlash       = `urlutil.URL round trip: no scheme/authority and escaped path beginning with "//" (String() reads back as an authority)`
+	keySlashSlashScheme = `urlutil.URL round trip: scheme without authority and escaped path beginning with "//" (String() reads back as an authority)`
+)
+
+var edgeCount int
+
+// edgeClass returns the known-finding key for u, or "".
+func edgeClass(input string, u *urlutil.URL, s0 string) string {
+	switch {
+	case s0 == "":
+		return fmt.Sprintf(keyEmptyStringFmt, input)
+	case u.Host == "" && u.User == nil && u.Opaque == "" && strings.HasPrefix(u.EscapedPath(), "//"):
+		if u.Scheme == "" {
+			return keySlashSlash
+		}
+		return keySlashSlashScheme
+	}
+	return ""
+}
+
+// judgeURL checks the statement for one accepted URL and returns the trips.
+func judgeURL(res *vh.Result, input string, u *urlutil.URL) (s0 string, trips []trip) {
+	key := fmt.Sprintf("urlutil.Parse(%+q)", input)
+	if pv, panicked := vh.Try(func() { s0 = u.String() }); panicked {
+		res.Mismatch(key, fmt.Sprintf("String() panics: %v", pv), nil)
+		return "", nil
+	}
+	trips = roundTrips(u)
+	cls := edgeClass(input, u, s0)
+	for _, t := range trips {
+		if t.err == nil && t.back == s0 {
+			continue
+		}
+		what := fmt.Sprintf("%s returns a URL whose String() is %+q, want %+q (encoded %+q)", t.name, t.back, s0, t.encoded)
+		if t.err != nil {
+			what = fmt.Sprintf("%s fails: %v (String() = %+q, encoded %+q)", t.name, t.err, s0, t.encoded)
+		}
+		detail := map[string]any{"input": input, "string": s0, "path": t.name, "encoded": t.encoded, "back": t.back}
+		if t.err != nil {
+			detail["error"] = t.err.Error()
+		}
+		if cls != "" {
+			edgeCount++
+			if os.Getenv("VERIF_C14_URL_EDGE") == "count" {
+				continue
+			}
+			res.Mismatch(cls, fmt.Sprintf("e.g. urlutil.Parse(%+q): %s", input, what), detail)
+			continue
+		}
+		res.Mismatch(key, what, detail)
+	}
+	return s0, trips
+}
+
+// edgeInputs are fixed representatives of the two classes above that the
+// model's shapes do not contain ("#" is one of its shapes).
+var edgeInputs = []string{"//", "//#", "/%2F x", "s:/%2F<y"}
+
+func replayURL(args []string) error {
+	if len(args) != 2 {
+		return fmt.Errorf("usage: replay-url <vectors> <result>")
+	}
+	res, err := vh.NewResult(args[1])
+	if err != nil {
+		return err
+	}
+	type vec struct {
+		Sp struct {
+			Comp string `json:"comp"`
+			Cls  string `json:"cls"`
+		} `json:"sp"`
+		Input  []string `json:"input"`
+		Accept bool     `json:"accept"`
+		Text   []string `json:"text"`
+		JHTML  []string `json:"jhtml"`
+		JRaw   []string `json:"jraw"`
+	}
+	var md modelDiffs
+	n, accepted, evals := 0, 0, 0
+	dd := vh.NewDedup()
+	err = vh.ForEachVector(args[0], func(_ int, raw []byte) error {
+		var v vec
+		if err := json.Unmarshal(raw, &v); err != nil {
+			return err
+		}
+		n++
+		input, err := urlJoin(v.Input)
+		if err != nil {
+			return err
+		}
+		text, _ := urlJoin(v.Text)
+		jhtml, _ := urlJoin(v.JHTML)
+		jraw, _ := urlJoin(v.JRaw)
+		dd.Add([]byte(input))
+		var u *urlutil.URL
+		var perr error
+		if pv, panicked := vh.Try(func() { u, perr = urlutil.Parse(input) }); panicked {
+			res.Mismatch(fmt.Sprintf("urlutil.Parse(%+q)", input), fmt.Sprintf("panic: %v", pv), nil)
+			return nil
+		}
+		if (perr == nil) != v.Accept {
+			md.add("urlutil.Parse(%q) error %v, UrlModel.tla says accept=%v", input, perr, v.Accept)
+		}
+		if perr != nil {
+			return nil
+		}
+		accepted++
+		s0, trips := judgeURL(res, input, u)
+		evals += len(trips)
+		if v.Accept && s0 != text {
+			md.add("Parse(%q).String() = %q, UrlModel.tla predicts %q", input, s0, text)
+		}
+		for _, t := range trips {
+			if !t.isJSON || t.err != nil || !v.Accept {
+				continue
+			}
+			want := jraw
+			if t.html {
+				want = jhtml
+			}
+			if t.encoded != want {
+				md.add("%s of %q encodes %q, UrlModel.tla JsonEnc predicts %q", t.name, input, t.encoded, want)
+			}
+		}
+		if n%1201 == 77 {
+			res.Sample(map[string]any{"input": input, "string": s0, "json": jhtml})
+		}
+		return nil
+	})
+	if err != nil {
+		return err
+	}
+	for _, input := range edgeInputs {
+		u, perr := urlutil.Parse(input)
+		if perr == nil {
+			_, trips := judgeURL(res, input, u)
+			evals += len(trips)
+			accepted++
+		}
+	}
+	if err := md.finish(res); err != nil {
+		return err
+	}
+	return res.Close(map[string]any{"vectors": n, "accepted": accepted, "evaluations": evals, "distinct_nontrivial": dd.N(),
+		"model_diffs": md.n, "edge_class_failures": edgeCount})
+}
+
+func recordURL(args []string) error {
+	if len(args) != 4 {
+		return fmt.Errorf("usage: record-url <trace> <result> <traced> <swept>")
+	}
+	var nTrace, nSweep int
+	fmt.Sscan(args[2], &nTrace)
+	fmt.Sscan(args[3], &nSweep)
+	tr, err := vh.NewTrace(args[0])
+	if err != nil {
+		return err
+	}
+	res, err := vh.NewResult(args[1])
+	if err != nil {
+		return err
+	}
+	rng := vh.Rand(143)
+	pick := func(xs []string) string { return xs[rng.IntN(len(xs))] }
+	special := []string{"&", "<", ">", `"`, `\`, " ", "\u00E9", "\u4E16", "\u2028", "\u2029", "%20", "%2F", "%26", "%3C", "%22", "%5C", "%C3%A9", "%e2%80%a8", "'", "+", "=", ";", "@", ":", "/", "?", "#", "%", "\x01", "\x7f", "\t", "{", "}", "|", "^", "`", "~", "[", "]", "*", "\U0001F600"}
+	word := func(pSpecial float64, maxN int) string {
+		var b strings.Builder
+		for k := 1 + rng.IntN(maxN); k > 0; k-- {
+			if rng.Float64() < pSpecial {
+				b.WriteString(pick(special))
+			} else {
+				b.WriteString(pick([]string{"a", "b", "z", "A", "0", "9", "-", ".", "_", "~", "x1", "id"}))
+			}
+		}
+		return b.String()
+	}
+	type ev struct {
+		Text []string `json:"text"`
+		HTML bool     `json:"html"`
+		JSON []string `json:"json"`
+		OK   bool     `json:"ok"`
+		Back []string `json:"back"`
+	}
+	total := max(nTrace, nSweep)
+	accepted, traced := 0, 0
+	dd := vh.NewDedup()
+	for i := 0; i < total; i++ {
+		ps := []float64{0, 0.1, 0.3, 0.6}[rng.IntN(4)]
+		var b strings.Builder
+		opaque := false
+		if rng.IntN(3) > 0 {
+			b.WriteString(pick([]string{"http", "https", "HTTP", "file", "mailto", "urn", "s3", "a+b.c-d", "grpc"}) + ":")
+			opaque = rng.IntN(5) == 0
+		}
+		if opaque {
+			b.WriteString(word(ps, 5))
+		} else {
+			if rng.IntN(3) > 0 {
+				b.WriteString("//")
+				if rng.IntN(3) == 0 {
+					b.WriteString(word(ps/2, 3))
+					if rng.IntN(2) == 0 {
+						b.WriteString(":" + word(ps/2, 3))
+					}
+					b.WriteString("@")
+				}
+				switch rng.IntN(6) {
+				case 0:
+					b.WriteString(pick([]string{"[::1]", "[fe80::1%25eth0]", "[2001:db8::1]", "1.2.3.4", ""}))
+				default:
+					b.WriteString(word(ps/2, 3))
+				}
+				if rng.IntN(3) == 0 {
+					b.WriteString(pick([]string{":80", ":", ":0", ":65535", ":8080"}))
+				}
+			}
+			for k := rng.IntN(4); k > 0; k-- {
+				b.WriteString("/" + word(ps, 3))
+			}
+			if rng.IntN(8) == 0 {
+				b.WriteString("/")
+			}
+		}
+		switch rng.IntN(4) {
+		case 0:
+			b.WriteString("?")
+		case 1:
+			b.WriteString("?" + word(ps, 3) + "=" + word(ps, 3))
+			if rng.IntN(2) == 0 {
+				b.WriteString("&" + word(ps, 2) + "=" + word(ps, 3))
+			}
+		}
+		switch rng.IntN(5) {
+		case 0:
+			b.WriteString("#" + word(ps, 3))
+		case 1:
+			if rng.IntN(4) == 0 {
+				b.WriteString("#")
+			}
+		}
+		input := b.String()
+		if !utf8.ValidString(input) {
+			return fmt.Errorf("record-url generated invalid UTF-8")
+		}
+		var u *urlutil.URL
+		var perr error
+		if pv, panicked := vh.Try(func() { u, perr = urlutil.Parse(input) }); panicked {
+			res.Mismatch(fmt.Sprintf("urlutil.Parse(%+q)", input), fmt.Sprintf("panic: %v", pv), nil)
+			continue
+		}
+		if perr != nil {
+			continue
+		}
+		accepted++
+		dd.Add([]byte(input))
+		s0, trips := judgeURL(res, input, u)
+		if i >= nTrace || edgeClass(input, u, s0) != "" {
+			continue
+		}
+		for _, t := range trips {
+			if !strings.HasPrefix(t.name, "json.Encoder") {
+				continue
+			}
+			e := ev{Text: urlTokens(s0), HTML: t.html, JSON: urlTokens(t.encoded), OK: t.err == nil, Back: urlTokens(t.back)}
+			tr.Emit(e)
+			traced++
+		}
+		if i%4999 == 3 {
+			res.Sample(map[string]any{"input": input, "string": s0})
+		}
+	}
+	if err := tr.Close(); err != nil {
+		return err
+	}
+	if tr.N == 0 {
+		fmt.Fprintln(os.Stderr, "record-url: no URL accepted")
+	}
+	return res.Close(map[string]any{"events": traced, "generated": total, "accepted": accepted, "evaluations": accepted * 9, "distinct_nontrivial": dd.N(),
+		"edge_class_failures": edgeCount})
+}
